@@ -146,7 +146,7 @@ def parse_errors(stderr):
     return [e for e in out if not e['msg'].startswith('aborting due to')]
 
 
-UNDECIDED_PAT = re.compile(r'rlimit|Resource limit|timed out|timeout|not supported|unsupported|The verifier does not yet support|panicked|internal compiler error', re.I)
+UNDECIDED_PAT = re.compile(r'rlimit|Resource limit|timed out|timeout|not supported|unsupported|The verifier does not yet support|panicked|internal compiler error|must have a decreases clause|decreases clause is required', re.I)
 
 
 def run_verus(rs, modules, tag, rlimit=None):
